@@ -16,6 +16,35 @@ CHECKS = {
             'semantics; bounded to small netlists exhaustively and seeded random ones beyond.',
             'TLA+ Kernel model checked by TLC; exhaustive replay of TLC terminal states into py4hw; TLC trace validation of recorded outcomes',
             'DESIGN.md section 4, C04'),
+    'C05': ('model_checking',
+            'TLC explores MC_Edge: every small netlist of registers/memory/stimulus and gates, all input histories, all clk(n) '
+            'splittings and ALL visit orders of drivers and clockables, checking EdgeAtomic (post-edge state equals the order-free '
+            'function of the pre-edge state), PreparedEmpty, IdleStable (n cycles = n single cycles) and the fixpoint. Settled '
+            'transitions are replayed on the real simulator with the visit order imposed on clockDrivers/clockables, and the recorded '
+            'runs (plus seeded random runs of library composites under random orders and splittings) are validated by TLC '
+            '(Trace_Kernel) on the extracted netlist.',
+            'Kernel.tla/PrimSem.tla transcribe _clk_cycle, settleAll and the leaves; orders imposed via public attributes; '
+            'exhaustive for 2-3 leaf netlists at 1-2 bit, sampled replay (1/EmitMod) for the larger configurations.',
+            'TLA+ Kernel model checked by TLC over all visit orders; replay of TLC schedules into py4hw; TLC trace validation of recorded runs',
+            'DESIGN.md section 4, C05'),
+    'C06': ('model_checking',
+            'TLC enumerates every primitive leaf x port widths (mixed) x parameters (negative/oversized constants, reset and stimulus '
+            'values, over-long shifts) x inputs through simulator creation and two clock cycles and checks TypeOK in every state '
+            'while PrimSem computes unmasked results (negative control: removing the truncation from Put breaks it). Every case is '
+            'replayed on the real primitive and every wire is range-checked after getSimulator(), after each clk(), inside a listener '
+            'and inside a Waveform; composites up to 64 bit get seeded extreme stimulus; all C05/C10 traces are range-checked by TLC too.',
+            'widths 1-3 (quick) / 1-4 (thorough) exhaustively; wider wires only by seeded stimulus.',
+            'TLC model checking of MC_Prim (TypeOK invariant) with exhaustive replay of every TLC case on the real primitive',
+            'DESIGN.md section 4, C06'),
+    'C10': ('model_checking',
+            'MC_Edge with a second clock domain gated by an arbitrary wire (primary input, register of either domain, gate output): '
+            'TLC checks GatedHold, EnableSampledBeforeEdge and EdgeAtomic for all enable/data histories and visit orders; sampled '
+            'settled transitions are replayed with the order imposed. Seeded random hierarchies (drivers on top level, containers and '
+            'leaves, 1-3 gated domains, self-gating, library composites under gated containers) are recorded and validated by TLC '
+            'against the order-free reference with the domain of every leaf computed by the generator, not read from py4hw.',
+            'two domains in the exhaustive model; more domains/deeper hierarchies by seeded generation.',
+            'TLA+ Kernel model checked by TLC (gating invariants); replay of TLC schedules; TLC trace validation of recorded hierarchical runs',
+            'DESIGN.md section 4, C10'),
 }
 
 PENDING = {}
